@@ -174,8 +174,9 @@ impl Ctx {
 
     fn run_query(&mut self, defs: String, body: String, timeout_ms: u32) -> Ans {
         let script = format!("{defs}(push)\n(set-option :timeout {timeout_ms})\n{body}(check-sat)\n(pop)\n");
-        if self.sample_smt.len() < 3 && body.len() < 4000 {
-            self.sample_smt.push(format!("(push)\n{body}(check-sat)\n(pop)"));
+        if self.sample_smt.len() < 3 && body.len() < 4000 && defs.len() > 40 && defs.len() < 6000 {
+            // a sample query as sent (with the term definitions it introduced)
+            self.sample_smt.push(format!("{defs}(push)\n{body}(check-sat)\n(pop)"));
         }
         let t0 = Instant::now();
         let a = self.z3().query(&script);
